@@ -36,5 +36,28 @@ func Run(cfg hx.Config) (*hx.Meta, error) {
 	if err := x.Run(cfg, meta); err != nil {
 		return nil, err
 	}
+	// hardening round 5: maps whose keys are (or contain) structs of an IMPORTED package with unexported
+	// fields: derived Hash leaves those fields out, so keys that agree in their exported fields hash alike
+	// and only the order derived Compare gives them (through reflect+unsafe) keeps the hash of the map
+	// independent of the order in which it was populated; keys that differ in unexported fields only,
+	// different values under them, many insertion orders
+	y := &ga.ExtraRun{VR: vr, Name: "privkeys", Types: cat.PrivKeyShapesR5(), Pool: ga.PrivKeyPoolR5, Probe: cfg.Tier == "thorough"}
+	if err := y.Run(cfg, meta); err != nil {
+		return nil, err
+	}
+	// ... and types recursive through a map, with pairs of Equal two-level trees whose inner maps outgrow
+	// every map of the type hashed before in the process (scratch state kept between calls shows when it has
+	// to grow): the pairs are hashed FIRST, in ascending size, then every value alone, then all pairs
+	vr2 := *vr
+	vr2.Cases = func(idx int, t *ga.Type, vals []*ga.Val, r *hx.Rand, out *strings.Builder) {
+		for i := 0; i+1 < len(vals); i += 2 {
+			fmt.Fprintf(out, "hasheq %d %s %s\n", idx, vals[i].Sexp(), vals[i+1].Sexp())
+		}
+		vr.Cases(idx, t, vals, r, out)
+	}
+	z := &ga.ExtraRun{VR: &vr2, Name: "recmaps", Types: cat.RecMapShapesR5(), Pool: ga.RecMapPoolR5, Probe: cfg.Tier == "thorough"}
+	if err := z.Run(cfg, meta); err != nil {
+		return nil, err
+	}
 	return meta, nil
 }
